@@ -68,16 +68,23 @@ def cases(shard, rnd):
                 # ... and values of a neighbouring type: refused today; a
                 # library that starts to accept them has to return them
                 # unchanged in value AND type like any other accepted value
+                # (lone surrogates are what os.environ / sys.argv / file
+                # names hand out for undecodable bytes: surrogateescape)
+                sur = ['p\udce4ss', '\udcc3\udca9', '\udc80', '\ud800',
+                       'ok\udfff', '\x00guest\x00p\udce4ss']
                 over = {'shortstr': ['q' * 256, 'é' * 128, '€' * 86,
                                      'x' * 300, b'abc', bytearray(b'abc'),
-                                     b'\xff\xfe'],
+                                     b'\xff\xfe'] + sur,
                         'longstr': [b'\x00guest\x00guest', b'abc',
-                                    bytearray(b'abc'), b'\xff\xfe'],
+                                    bytearray(b'abc'), b'\xff\xfe'] + sur,
                         'octet': [256, -1, 1.0, '1'],
                         'short': [65536, -1, 1.0, '1'],
                         'long': [2**32, -1, 1.0, '1'],
                         'longlong': [2**63, -2**63 - 1, 1.0, '1'],
-                        'table': [[('k', 'v')], (('k', 'v'),)],
+                        'table': [[('k', 'v')], (('k', 'v'),),
+                                  {'k\udce4': 1}, {'k': 'v\udcff'},
+                                  {'a': ['\udc80']}, {'n': {'\udcc3\udca9':
+                                                            's'}}],
                         }.get(t, [])
                 for v in over:
                     vals = gf.assignment(rnd, spec)
